@@ -490,6 +490,14 @@ fn run_container(cx: &mut Ctx, enc: &Encoded, label: &str) -> Option<Vec<u8>> {
     for m in &enc.modes {
         cx.rep.count(&format!("chunk-mode:{m:?}"));
     }
+    for c in &enc.chunks {
+        if let Chunk::Comp(t) = c {
+            let p = ser_len(t);
+            if p >= 4094 {
+                cx.rep.count(&format!("compressed-chunk-payload:{p}-bytes"));
+            }
+        }
+    }
     // what the copy tokens of this container exercise
     let (mut bcs, mut overlap, mut maxlen, mut maxoff) = ([false; 16], false, false, false);
     for c in &enc.chunks {
@@ -550,7 +558,103 @@ fn run_container(cx: &mut Ctx, enc: &Encoded, label: &str) -> Option<Vec<u8>> {
     Some(container)
 }
 
+/// a compressed chunk whose CompressedChunkData (flag bytes + literals + 2 x copy tokens) takes EXACTLY `payload`
+/// bytes (4096 = size field 0x0FFF, the largest a compressed chunk can have; seeded change C18-m14) and that
+/// expands to exactly `out` bytes (4096 for a non-final chunk). Found by search over (literals, copies).
+fn exact_payload_chunk(payload: usize, out: Option<usize>, rng: &mut Rng) -> Option<Vec<Tok>> {
+    let mut cands = vec![];
+    for c in 1..400usize {
+        for l in 1..4096usize {
+            if l + 2 * c + (l + c).div_ceil(8) != payload {
+                continue;
+            }
+            match out {
+                Some(o) => {
+                    if o >= l + 3 * c && o <= l + 18 * c {
+                        cands.push((l, c, o - l));
+                    }
+                }
+                None => {
+                    if l + 3 * c <= 4096 {
+                        let hi = (l + 18 * c).min(4096);
+                        cands.push((l, c, rng.range((l + 3 * c) as u64, hi as u64) as usize - l));
+                    }
+                }
+            }
+        }
+    }
+    if cands.is_empty() {
+        return None;
+    }
+    let (l, c, copy_total) = cands[rng.below(cands.len() as u64) as usize];
+    // lengths of the c copies: 3..=18 each (18 is the longest copy at any position of a chunk), sum copy_total
+    let mut lens = vec![3usize; c];
+    let mut rest = copy_total - 3 * c;
+    while rest > 0 {
+        let i = rng.below(c as u64) as usize;
+        if lens[i] < 18 {
+            lens[i] += 1;
+            rest -= 1;
+        }
+    }
+    // positions: the first token is a literal; the copies are spread at random among the others
+    let mut kinds = vec![false; l + c - 1];
+    for k in kinds.iter_mut().take(c) {
+        *k = true;
+    }
+    rng.shuffle(&mut kinds[..]);
+    let mut toks = vec![Tok::Lit(rng.next() as u8)];
+    let mut d = 1usize;
+    let mut li = 0;
+    for is_copy in kinds {
+        if is_copy {
+            let off = if rng.chance(1, 3) { d } else { rng.range(1, d as u64) as usize };
+            toks.push(Tok::Copy(off, lens[li]));
+            d += lens[li];
+            li += 1;
+        } else {
+            toks.push(Tok::Lit(rng.next() as u8));
+            d += 1;
+        }
+    }
+    debug_assert_eq!(ser_len(&toks), payload);
+    Some(toks)
+}
+
+/// containers around a chunk of exact payload size: alone / last after other chunks (final, any output length), or
+/// first / in the middle (non-final: expands to 4096 bytes)
+fn gen_exact_payload_case(rng: &mut Rng) -> Option<(Encoded, String)> {
+    let payload = *rng.pick(&[4096usize, 4096, 4095, 4094]);
+    let before = rng.below(3) as usize;
+    let after = rng.below(2) as usize;
+    let mut chunks = vec![];
+    let mut modes = vec![];
+    for _ in 0..before {
+        let (src, _) = gen_source(4096, rng);
+        let e = encode(&src, *rng.pick(&[Mode::Greedy, Mode::Random, Mode::Raw]), false, false, rng);
+        chunks.extend(e.chunks);
+        modes.extend(e.modes);
+    }
+    chunks.push(Chunk::Comp(exact_payload_chunk(payload, if after > 0 { Some(4096) } else { None }, rng)?));
+    modes.push(Mode::Random);
+    for k in 0..after {
+        let (src, _) = gen_source(if k + 1 == after { rng.range(1, 4096) as usize } else { 4096 }, rng);
+        let e = encode(&src, Mode::Greedy, false, false, rng);
+        chunks.extend(e.chunks);
+        modes.extend(e.modes);
+    }
+    let source: Vec<u8> = chunks.iter().flat_map(|c| match c { Chunk::Raw(b) => b.clone(), Chunk::Comp(t) => expand_tokens(t) }).collect();
+    let n = chunks.len();
+    let boundary = chunks[..n - 1].iter().any(|c| matches!(c, Chunk::Comp(t) if t.len() % 8 == 0));
+    Some((Encoded { chunks, source, boundary, standard: true, modes }, format!("exact-payload={payload} before={before} after={after}")))
+}
+
 fn gen_container_case(rng: &mut Rng) -> (Encoded, String) {
+    if rng.chance(1, 40) {
+        if let Some(c) = gen_exact_payload_case(rng) {
+            return c;
+        }
+    }
     let (nchunks, len) = gen_len(rng);
     let (src, kind) = gen_source(len, rng);
     let mode = *rng.pick(&[Mode::Literal, Mode::Greedy, Mode::Greedy, Mode::Random, Mode::Random, Mode::Random, Mode::Raw, Mode::Mixed]);
@@ -680,6 +784,12 @@ struct ProjSpec {
     compat: bool,
     refs: Vec<RefSpec>,
     mods: Vec<ModSpec>,
+}
+
+thread_local! {
+    /// when set: the next project container is a version-3 file with exactly this number of FAT sectors, tables at
+    /// the front, the project's streams at the very end (seeded change C18-m13 / C13-m9)
+    static FAT_SECTORS: std::cell::Cell<usize> = const { std::cell::Cell::new(0) };
 }
 
 /// a random string in the code page together with its Unicode text, from tables written here (not encoding_rs)
@@ -989,6 +1099,25 @@ fn gen_project(rng: &mut Rng) -> ProjSpec {
         path.0.splice(0..0, b"C:\\lib\\".iter().copied());
         path.1.insert_str(0, "C:\\lib\\");
         refs.push(RefSpec { name, kind: rng.below(4) as u8, desc: cp_string(cp, rng.range(1, 12) as usize, false, rng), path });
+    }
+    // a module (and its stream) named like a standard root stream, in another case
+    if rng.chance(1, 10) {
+        let n = *rng.pick(&["Project", "project", "ProjectWm", "PROJECTWM", "projectwm", "pROJECT"]);
+        if !mods.iter().any(|m| m.name.1.eq_ignore_ascii_case(n)) {
+            mods[0].name = (n.as_bytes().to_vec(), n.to_string());
+            mods[0].stream = mods[0].name.clone();
+        }
+    }
+    // UTF-8 projects: stream names of at most 31 UTF-16 units that take more than 62 BYTES in the code page
+    // (seeded change C18-m16)
+    if cp == 65001 && rng.chance(1, 3) {
+        let k = rng.range(21, 31) as usize;
+        let t: String = (0..k).map(|_| *rng.pick(&['モ', '語', '漢', 'あ', '㐀'])).collect();
+        if !mods.iter().any(|m| m.name.1 == t) {
+            let last = mods.len() - 1;
+            mods[last].name = (t.as_bytes().to_vec(), t.clone());
+            mods[last].stream = mods[last].name.clone();
+        }
     }
     ProjSpec { cp, compat: rng.chance(1, 2), refs, mods }
 }
@@ -1334,12 +1463,29 @@ fn run_project_spec(cx: &mut Ctx, p: &ProjSpec, label: &str, dup: Option<(u8, bo
         }
         streams.push((m.stream.1.clone(), s));
     }
-    if rng.chance(1, 2) {
+    // the other standard streams of a project; always there when a module's stream is named like one of them in
+    // another case (`Project` vs `PROJECT`: different storages in a real file, different names for the flat lookup;
+    // seeded change C18-m15: case-insensitive comparison)
+    let case_variant = p.mods.iter().any(|m| ["PROJECT", "PROJECTWM"].contains(&m.stream.1.to_uppercase().as_str()));
+    if case_variant || rng.chance(1, 2) {
         streams.push(("PROJECT".into(), b"ID=\"{0}\"\r\n".to_vec()));
+        streams.push(("PROJECTwm".into(), vec![0x4D, 0x31, 0, 0x4D, 0, 0x31, 0, 0, 0, 0, 0]));
         streams.push(("_VBA_PROJECT".into(), vec![0xCC, 0x61, 0xFF, 0xFF, 0, 0, 0]));
+    }
+    if case_variant {
+        cx.rep.count("project:module-stream-named-like-a-root-stream-in-another-case");
     }
     rng.shuffle(&mut streams[..]);
     let mut opts = CfbOpts::random(rng);
+    let n_fat = FAT_SECTORS.with(|c| c.replace(0));
+    if n_fat > 0 {
+        opts = CfbOpts { sector_size: 512, free_after_tables: true, unused_dirs: opts.unused_dirs, fill: opts.fill, ..CfbOpts::default() };
+        match verif_harness::cfbw::extra_free_for_fat_sectors(&streams, &opts, n_fat) {
+            Some(f) => opts.extra_free = f - rng.below(100.min(f as u64 + 1)) as usize,
+            None => return,
+        }
+        cx.rep.count(&format!("project:container-with-exactly-{n_fat}-FAT-sectors"));
+    }
     let mut storage_patch: Option<(String, usize)> = None;
     let mut storage_decoy_at: Option<usize> = None; // a storage entry is not a stream: invisible to the lookup
     if let Some((kind, decoy_first)) = dup {
@@ -1422,7 +1568,11 @@ fn run_project_spec(cx: &mut Ctx, p: &ProjSpec, label: &str, dup: Option<(u8, bo
     };
     let reply = cx.drv.ask(&format!("proj {} {}", hex(&dirc), if model_streams.is_empty() { "-".to_string() } else { model_streams.join(";") }));
     let model = canon_model_project(&reply).unwrap_or_else(|e| e);
-    let input = format!("{label} cp={} mods={} refs={} file={}", p.cp, p.mods.len(), p.refs.len(), hex(&file));
+    let input = if file.len() > 1 << 20 {
+        format!("{label} cp={} mods={} refs={} file=<{} bytes: version 3, {n_fat} FAT sectors, tables first, project streams in the last sectors; rebuilt by the corpus>", p.cp, p.mods.len(), p.refs.len(), file.len())
+    } else {
+        format!("{label} cp={} mods={} refs={} file={}", p.cp, p.mods.len(), p.refs.len(), hex(&file))
+    };
     cx.rep.case(&format!("{label} cp={} mods={} refs={} size={}", p.cp, p.mods.len(), p.refs.len(), file.len()), true);
     if imp != model {
         cx.rep.fail("impl_vs_model", label, &input, &imp, &model, &expect_proj);
@@ -1822,6 +1972,19 @@ fn main() {
         for (name, bin) in fixture_projects() {
             run_fixture(&mut cx, &name, &bin);
         }
+        // compressed chunks whose data takes exactly 4096 / 4095 bytes, final and non-final
+        let mut xrng = Rng::new(14);
+        for (payload, nonfinal) in [(4096usize, false), (4096, true), (4095, false), (4095, true)] {
+            if let Some(t) = exact_payload_chunk(payload, if nonfinal { Some(4096) } else { None }, &mut xrng) {
+                let mut chunks = vec![Chunk::Comp(t)];
+                if nonfinal {
+                    chunks.push(Chunk::Comp(vec![Tok::Lit(b'z'), Tok::Copy(1, 5)]));
+                }
+                let source: Vec<u8> = chunks.iter().flat_map(|c| match c { Chunk::Raw(b) => b.clone(), Chunk::Comp(t) => expand_tokens(t) }).collect();
+                let enc = Encoded { chunks, source, boundary: false, standard: true, modes: vec![] };
+                run_container(&mut cx, &enc, &format!("corpus:exact-payload-{payload}-{}", if nonfinal { "nonfinal" } else { "final" }));
+            }
+        }
         let mut crng = Rng::new(7);
         for (name, p) in corpus_projects() {
             run_project_spec(&mut cx, &p, &format!("project-corpus:{name}"), None, &mut crng);
@@ -1835,6 +1998,34 @@ fn main() {
                     cx.rep.count("project:module-longer-than-64KiB-multibyte");
                 }
             }
+        }
+        // a module called `Project` next to the root stream `PROJECT` (both directory orders), and a UTF-8 project
+        // whose module stream name has 31 characters = 93 bytes
+        for (k, n) in ["Project", "projectwm"].into_iter().enumerate() {
+            let mut p = corpus_projects().remove(2).1;
+            p.mods[0].name = (n.as_bytes().to_vec(), n.to_string());
+            p.mods[0].stream = p.mods[0].name.clone();
+            let mut r = Rng::new(150 + k as u64);
+            for _ in 0..3 {
+                run_project_spec(&mut cx, &p, &format!("project-corpus:case-variant-of-root-stream-{n}"), None, &mut r);
+            }
+        }
+        {
+            let mut p = corpus_projects().remove(2).1; // own-bom-65001
+            let t: String = "漢".repeat(31);
+            p.mods[0].name = (t.as_bytes().to_vec(), t.clone());
+            p.mods[0].stream = p.mods[0].name.clone();
+            run_project_spec(&mut cx, &p, "project-corpus:utf8-stream-name-31-units-93-bytes", None, &mut crng);
+        }
+        // version-3 containers with exactly 236 / 237 / 238 / 364 / 365 FAT sectors (15-24 MB), the tables first and
+        // the project's streams in the last sectors: 237 and 364..365 need the link of the second / third DIFAT sector
+        for n_fat in [236usize, 237, 238, 364, 365] {
+            if !args.thorough() && ![237usize, 365].contains(&n_fat) {
+                continue; // the quick tier keeps the two counts that need the last DIFAT link
+            }
+            let p = corpus_projects().remove(2).1;
+            FAT_SECTORS.with(|c| c.set(n_fat));
+            run_project_spec(&mut cx, &p, &format!("project-corpus:container-with-{n_fat}-FAT-sectors"), None, &mut crng);
         }
         // duplicate directory-entry names, the module stream first: a storage / a stream of the same name later
         for kind in [0u8, 1] {
